@@ -47,6 +47,29 @@ def determinism(a):
     total = 0
     t0 = time.time()
     for prop in props:
+        shared_home = None
+        if getattr(runner.load_prop(prop), 'NEEDS_GPG', False) and not os.environ.get('VERIF_SIGNER_HOME'):
+            # one signer keyring (and gpg-agent) for all legs of this property, as in a normal batch
+            from sim import gpgsim
+            shared_home = gpgsim.signer_home()
+            os.environ['VERIF_SIGNER_HOME'] = shared_home
+        try:
+            bad += _determinism_one(prop, n, seed)
+        finally:
+            if shared_home is not None:
+                os.environ.pop('VERIF_SIGNER_HOME', None)
+            runner._cleanup_peers()
+        total += (max(2, n // 8) if prop in ('C06', 'C10') else n) * 5
+    print('determinism self-test: %d executions, %d properties diverged, %.0fs' % (total, bad, time.time() - t0))
+    if bad:
+        print('HARNESS-ERROR: nondeterminism')
+        return 2
+    return 0
+
+
+def _determinism_one(prop, n, seed):
+    bad = 0
+    if True:
         if prop in ('C06', 'C10'):
             k = max(2, n // 8)       # each run is a whole fault enumeration
         else:
@@ -75,15 +98,10 @@ def determinism(a):
                 print('DIVERGENCE %s %s at indices %r' % (prop, nm, where))
                 if d is None:
                     print(p.stdout[-500:], p.stderr[-500:])
-        total += k * 5
         bad += 0 if ok else 1
         print('%s: %d sub-seeds x 5 executions %s' % (prop, k, 'identical' if ok else 'DIVERGED'))
         sys.stdout.flush()
-    print('determinism self-test: %d executions, %d properties diverged, %.0fs' % (total, bad, time.time() - t0))
-    if bad:
-        print('HARNESS-ERROR: nondeterminism')
-        return 2
-    return 0
+    return bad
 
 
 def _copy_repo(dst):
